@@ -46,6 +46,10 @@ def run(ctx):
     from . import c17
     c17._api(ctx, ctx.model, rule='C04.D3', only=('zincdumper',))
     c17._timezone_name(ctx, ctx.model, rule='C04.D3')
+    # XStr payload text (XStr.data_to_string): hex digits / one-line standard base64
+    _zinc.xstr_codec(ctx, 'C04.D1')
+    from . import c16
+    c16.mapping_overrides(ctx, ctx.model, rule='C04.D2')
 
 
 def _layout(ctx, version):
